@@ -15,7 +15,11 @@
 package toml
 
 import (
+	"fmt"
 	"io"
+	"maps"
+	"slices"
+	"strconv"
 
 	"github.com/pelletier/go-toml/v2"
 
@@ -43,5 +47,40 @@ func (e *Encoder) Encode(val cue.Value) error {
 	if err := val.Decode(&v); err != nil {
 		return err
 	}
+	if err := checkNoNull(v, ""); err != nil {
+		return err
+	}
 	return e.encoder.Encode(v)
+}
+
+// checkNoNull reports an error if v, a value decoded from a [cue.Value], holds a null.
+// TOML has no null value; go-toml reports an error for a nil list element,
+// but it silently omits a map entry whose value is nil, which would lose data.
+func checkNoNull(v any, path string) error {
+	switch v := v.(type) {
+	case nil:
+		if path == "" {
+			return fmt.Errorf("toml: cannot encode null")
+		}
+		return fmt.Errorf("toml: cannot encode null value at %s", path)
+	case map[string]any:
+		// Sort the keys so that the error is deterministic.
+		for _, name := range slices.Sorted(maps.Keys(v)) {
+			elem := v[name]
+			elemPath := strconv.Quote(name)
+			if path != "" {
+				elemPath = path + "." + elemPath
+			}
+			if err := checkNoNull(elem, elemPath); err != nil {
+				return err
+			}
+		}
+	case []any:
+		for i, elem := range v {
+			if err := checkNoNull(elem, path+"["+strconv.Itoa(i)+"]"); err != nil {
+				return err
+			}
+		}
+	}
+	return nil
 }
